@@ -241,11 +241,17 @@ impl Acc {
         self
     }
     fn add(&mut self, key: String, msg: String, inv: &Invocation, r: &Run) {
+        self.add_expect(key, msg, inv, r, json!({"kind": "malformed"}))
+    }
+    fn add_expect(&mut self, key: String, msg: String, inv: &Invocation, r: &Run, expect: Value) {
+        // keep the content of the instance file so that the case can be replayed later
+        let file = inv.args.iter().position(|a| a == "-f").and_then(|i| inv.args.get(i + 1)).cloned();
+        let content = file.as_ref().and_then(|f| std::fs::read(f).ok());
         let v = Violation {
             property: "C05".into(),
             key: key.clone(),
             message: format!("{} {}: {}", inv.bin.rsplit('/').next().unwrap(), inv.args.join(" "), msg),
-            case: json!({"engine": "cli", "bin": inv.bin, "args": inv.args, "stdout": r.stdout, "exit": r.code}),
+            case: json!({"engine": "cli", "bin": inv.bin, "args": inv.args, "stdout": r.stdout, "exit": r.code, "expect": expect, "file": file, "file_content": content}),
         };
         let e = self.violations.entry(key).or_insert((0, v));
         e.0 += 1;
@@ -318,7 +324,8 @@ fn sweep_graph(dir: &Path, idx: usize, g: &Graph, level: u8, spellings: bool) ->
                         acc.sample.push(json!({"cmd": format!("{} {}", inv.bin.rsplit('/').next().unwrap(), inv.args.join(" ")), "graph": g.describe(), "stdout": r.stdout, "exit": r.code}));
                     }
                     if let Err((what, msg)) = judge_valid(&ra, kind, sem, arg, cert, iccma, logging, &r) {
-                        acc.add(format!("valid;bin={};problem={};what={}", inv.bin.rsplit('/').next().unwrap(), problem, what), format!("on {}: {}", g.describe(), msg), &inv, &r);
+                        acc.add_expect(format!("valid;bin={};problem={};what={}", inv.bin.rsplit('/').next().unwrap(), problem, what), format!("on {}: {}", g.describe(), msg), &inv, &r,
+                            json!({"kind": "valid", "graph": g.to_json(), "qkind": kind.name(), "sem": sem.name(), "arg": arg, "cert": cert, "iccma": iccma, "logging": logging}));
                     }
                 }
             }
@@ -537,7 +544,8 @@ pub fn run_check(tier: Tier) -> i32 {
                 total.processes += 1;
                 if r.code == Some(0) {
                     if let Err((what, msg)) = judge_valid(&ra, kind, sem, arg, true, true, false, &r) {
-                        total.add(format!("undecodable_comment;problem={};what={}", problem, what), format!("instance with an undecodable byte in a comment line was accepted but answered for another framework: {}", msg), &inv, &r);
+                        total.add_expect(format!("undecodable_comment;problem={};what={}", problem, what), format!("instance with an undecodable byte in a comment line was accepted but answered for another framework: {}", msg), &inv, &r,
+                            json!({"kind": "valid_or_error", "graph": g.to_json(), "qkind": kind.name(), "sem": sem.name(), "arg": arg, "cert": true, "iccma": true, "logging": false}));
                     }
                 } else if let Some(l) = has_answer_line(&r.stdout) {
                     total.add(format!("undecodable_comment;problem={};what=answer_printed", problem), format!("non-zero exit but the answer line {:?} was printed", l), &inv, &r);
